@@ -141,9 +141,13 @@ def compare_lex(res, st, tag, cases, impl, model, sample_every, findings, pendin
                     fid = e.get("id", "?")
                     if fid not in st.known_hits:
                         st.known_hits[fid] = 0
-                        res.known_finding("%s class=%s input=%s :: vhdl_lang %s / vhdl_syntax %s" % (
-                            fid, cls, json.dumps(printable(raw)), json.dumps([printable(x) for x in unhex_list(llh)][:12]),
-                            json.dumps([printable(x) for x in unhex_list(slh)][:12])))
+                        la, sa = unhex_list(llh), unhex_list(slh)
+                        k = 0
+                        while k < len(la) and k < len(sa) and la[k] == sa[k]:
+                            k += 1
+                        res.known_finding("%s class=%s input=%s :: from lexeme %d vhdl_lang %s / vhdl_syntax %s" % (
+                            fid, cls, json.dumps(printable(raw)), k, json.dumps([printable(x) for x in la[k:k + 4]]),
+                            json.dumps([printable(x) for x in sa[k:k + 4]])))
                     st.known_hits[fid] += 1
                 else:
                     pending["n_input"] += 1
